@@ -49,6 +49,51 @@ def _where_tree(e):
     return ("leaf", e)
 
 
+def _canon_cmp(e):
+    """(op, left, right) of a comparison with > / >= turned round and numeric literals normalised; None if not a comparison"""
+    if isinstance(e, str):
+        e = parse_expr(e)
+    if not (isinstance(e, ast.Compare) and len(e.ops) == 1):
+        return None
+
+    def txt(x):
+        c = const_value(x)
+        if isinstance(c, (int, float)) and not isinstance(c, bool):
+            return repr(float(c))
+        return norm_text(x)
+    a, b, op = e.left, e.comparators[0], type(e.ops[0])
+    if op in (ast.Gt, ast.GtE):
+        a, b = b, a
+        op = ast.Lt if op is ast.Gt else ast.LtE
+    return (op.__name__, txt(a), txt(b))
+
+
+def _same_cmp(e, want):
+    return _canon_cmp(e) is not None and _canon_cmp(e) == _canon_cmp(want)
+
+
+def _value_ast(prog, f):
+    """the value a curve method returns, as one expression: locals and helper methods of the curve class expanded (symbolic
+    execution on terms, written back as an expression), module-level constants resolved"""
+    from ..absint import Interp, TermDomain, term_to_ast, term_alternatives
+    t = Interp(prog, TermDomain(), follow=lambda c_: c_.cls is f.cls and not c_.is_property()).run(
+        f, [("p", q) for q in f.params if q != "self"])
+    alts = term_alternatives(t)
+    if len(alts) != 1:
+        raise AnalysisError("%s: several different return values" % f.key)
+    try:
+        return term_to_ast(alts[0])
+    except ValueError as e:
+        raise AnalysisError("%s: returned value not expressible (%s)" % (f.key, e))
+
+
+def _site(f, name):
+    try:
+        return _stmt_value(f, name)
+    except AnalysisError:
+        return f.node
+
+
 class CurveNF:
     def __init__(self, prog, ci, var_map):
         self.prog, self.ci, self.var_map = prog, ci, var_map
@@ -199,10 +244,10 @@ def _curves(ctx):
     ci = prog.cls(WF + "WoehlerCurvePRAM")
     cn = prog.lookup_method(ci, "calc_N")
     cp = prog.lookup_method(ci, "calc_P_RAM")
-    nv = _stmt_value(cn, "N")
-    tn = _where_tree(nv.value)
+    nv = _site(cn, "N")
+    tn = _where_tree(_value_ast(prog, cn))
     rp = [s for s in cp.node.body if isinstance(s, ast.Return)][-1]
-    tp = _where_tree(rp.value)
+    tp = _where_tree(_value_ast(prog, cp))
     c = CurveNF(prog, ci, {"P_RAM": "P", "N": "N"})
     try:
         if not (tn[0] == "where" and tn[2][0] == "where" and tn[3][0] == "leaf"):
@@ -236,14 +281,14 @@ def _curves(ctx):
                 ctx.violated(fi, node, "P_RAM curve: %s fails: %r vs %r" % (what, a, b), text="PRAM " + what)
         # selectors
         at = lambda e: norm_text(e).replace("self.", "")
-        ok_outer = norm_text(outer) == "P_RAM > self.fatigue_strength_limit" and norm_text(tn[3][1]) in ("np.inf", "float('inf')")
+        ok_outer = _same_cmp(outer, "P_RAM > self.fatigue_strength_limit") and norm_text(tn[3][1]) in ("np.inf", "float('inf')")
         if ok_outer:
             ctx.holds(cn, nv, "P_RAM curve: infinite life exactly on the complement of P > P_D")
         else:
             ctx.violated(cn, nv, "P_RAM curve: outer selector %s / default %s is not 'P > endurance value, else infinity'" %
                          (norm_text(outer), norm_text(tn[3][1])), text="PRAM outer")
-        ok_inner = norm_text(inner_n) == "P_RAM >= self.P_RAM_Z" and norm_text(tp[1]) == "N < 1000.0" and \
-            norm_text(tp[3][1]) == "N < self.fatigue_life_limit"
+        ok_inner = _same_cmp(inner_n, "P_RAM >= self.P_RAM_Z") and _same_cmp(tp[1], "N < 1000.0") and \
+            _same_cmp(tp[3][1], "N < self.fatigue_life_limit")
         if ok_inner:
             ctx.holds(cp, rp, "P_RAM curve: knee selectors P >= P_Z <-> N < 1e3 and N < life limit are mirror images "
                       "(equal values at the borders by continuity)")
@@ -262,10 +307,12 @@ def _curves(ctx):
         cj = prog.cls(WF + "WoehlerCurvePRAJ")
         jn = prog.lookup_method(cj, "calc_N")
         jp = prog.lookup_method(cj, "calc_P_RAJ")
-        jv = _stmt_value(jn, "N")
-        tj = _where_tree(jv.value)
+        jv = _site(jn, "N")
+        # calc_N of the P_RAJ curve has an optional parameter with a default taken from the object; its local form is read
+        # directly (the default is checked below), the symbolic value only when that local form is gone
+        tj = _where_tree(jv.value) if isinstance(jv, ast.Assign) else _where_tree(_value_ast(prog, jn))
         rj = [s for s in jp.node.body if isinstance(s, ast.Return)][-1]
-        tq = _where_tree(rj.value)
+        tq = _where_tree(_value_ast(prog, jp))
         cc = CurveNF(prog, cj, {"P_RAJ": "P", "N": "N"})
         Nj = cc.tr(tj[2][1])
         Pj = cc.tr(tq[2][1])
@@ -280,7 +327,7 @@ def _curves(ctx):
                 ctx.holds(fi, node, "P_RAJ curve: " + what)
             else:
                 ctx.violated(fi, node, "P_RAJ curve: %s fails: %r vs %r" % (what, a, b), text="PRAJ " + what)
-        ok = norm_text(tj[1]) == "P_RAJ > P_RAJ_D" and norm_text(tj[3][1]) in ("np.inf",)
+        ok = _same_cmp(tj[1], "P_RAJ > P_RAJ_D") and norm_text(tj[3][1]) in ("np.inf",)
         dflt = [s for s in walk_function(jn.node) if isinstance(s, ast.If) and norm_text(s.test) == "P_RAJ_D is None"]
         ok = ok and dflt and norm_text(dflt[0].body[0].value) == "self._P_RAJ_D"
         if ok:
